@@ -292,3 +292,23 @@ prop("C07", [
          "single-deviation plans for the busy-wait verdict; non-trivial = every combination (all stall A)",
     assumptions=COMMON_ASSUME + ["'bounded time' is measured in event-loop steps, not wall time"],
     bounds={"quick": "full grid 3x5x4x7x2x2", "thorough": "same grid (complete)"})
+
+prop("C08", [
+    {"name": "c08_lifecycle", "sources": ["c08_lifecycle.cc"], "c_sources": ["common/netgate.c"], "flavour": "asan",
+     "args": {"quick": ["--d1=5", "--d2=4", "--timeout-ms=120000", "--deadline-s=170"],
+              "thorough": ["--d1=7", "--d2=6", "--faults=0", "--timeout-ms=600000", "--deadline-s=2400"]}},
+    {"name": "c08_faults", "sources": ["c08_lifecycle.cc"], "c_sources": ["common/netgate.c"], "flavour": "asan",
+     "args": {"thorough": ["--d1=6", "--d2=0", "--faults=1", "--timeout-ms=600000", "--deadline-s=1200"]}},
+],
+    rule="one case = a block of 16 client-event histories; history alphabet per connection: connect, send first half "
+         "of a request, send the rest, send a whole request, read, close, shutdown(WR), abortive close (RST), plus "
+         "tick(+500 ms) (thorough second part: + hold / release of the server's writes on that connection); all "
+         "histories up to depth d1 on one connection and d2 on two connections (second connection only after the "
+         "first: symmetry), each followed by 'all clients close, 6 ticks, run loops dry'; executed on a real "
+         "Http::Endpoint (acceptor + 1 worker gated at epoll_wait, virtual time, header/body time-outs 1 s / 2 s) "
+         "with real loopback TCP clients; oracle per history as in the harness header; states = distinct (history, "
+         "accepted, descriptor delta); transitions = event-loop steps granted",
+    assumptions=COMMON_ASSUME + ["real loopback TCP: after each client action the harness waits (bounded) for the "
+                                 "kernel to make a loop ready; a late kernel effect would show as harness nondeterminism, "
+                                 "not as a verdict"],
+    bounds={"quick": "depth 5 (1 connection), 4 (2 connections)", "thorough": "depth 7 / 6, and depth 6 with write faults"})
